@@ -429,6 +429,7 @@ type jnode struct {
 	Key  string   // member key when inside an object
 	KeyF *jnode   // optional: the key itself is a field (kind jkey)
 	Raw  string   // literal JSON for non-field values
+	Alt  string   // another valid value of the field (a "uuidref": the other parent)
 }
 
 func jint(name string, v int64) *jnode    { return &jnode{Name: name, Kind: "jint", Num: v} }
@@ -462,6 +463,9 @@ type jmut struct {
 	Rng    *rand.Rand
 	Note   string
 	OK     bool
+	Flags  strList   // flags of the target field (specification)
+	World  *c20World // for values that refer to the world (versions, instances)
+	Self   string    // name of the instance the request addresses
 }
 
 func jquote(s string) string { b, _ := json.Marshal(s); return string(b) }
@@ -497,6 +501,10 @@ value:
 			m.Note, m.OK = "cut before "+n.Name, true
 		case "jtype":
 			rep := map[string]string{"jint": `"x7"`, "jstr": `17`, "jlist": `{"a":1}`, "jobj": `[1]`}[n.Kind]
+			if m.Flags.has("typed") && m.Rng.Intn(3) == 0 {
+				// another wrong type now and then
+				rep = map[string]string{"jint": `[1]`, "jstr": `{"a":"b"}`, "jlist": `"abc"`, "jobj": `7`}[n.Kind]
+			}
 			sb.WriteString(rep)
 			m.Note, m.OK = fmt.Sprintf("%s := %s", n.Name, rep), true
 			return
@@ -538,6 +546,69 @@ value:
 				sb.WriteString("{}")
 			}
 			m.Note, m.OK = n.Name+" emptied", true
+			return
+		case "jshort", "jlong":
+			kids := n.Kids
+			if m.Class == "jshort" {
+				if len(kids) == 0 {
+					break
+				}
+				kids = kids[:len(kids)-1]
+			} else {
+				if len(kids) == 0 {
+					break
+				}
+				kids = append(append([]*jnode(nil), kids...), kids[len(kids)-1])
+			}
+			sb.WriteString("[")
+			for i, k := range kids {
+				if i > 0 {
+					sb.WriteString(",")
+				}
+				k.render(sb, nil, cut, false)
+			}
+			sb.WriteString("]")
+			m.Note, m.OK = fmt.Sprintf("%s: %d members instead of %d", n.Name, len(kids), len(n.Kids)), true
+			return
+		case "numnonnum", "numzero", "numneg", "numhuge":
+			v := map[string][]string{
+				"numnonnum": {"abc", "1.5x", "", "0x10", "1e3", " 1"},
+				"numzero":   {"0"},
+				"numneg":    {"-1", "-128", "-2147483649"},
+				"numhuge":   {"255", "256", "65536", "2147483647", "4294967296", "99999999999999999999"},
+			}[m.Class]
+			s := v[m.Rng.Intn(len(v))]
+			sb.WriteString(jquote(s))
+			m.Note, m.OK = fmt.Sprintf("%s := %q", n.Name, s), s != n.Str
+			return
+		case "syncself", "syncmissing", "syncwrongtype", "syncdup", "syncmulti", "syncempty":
+			v := map[string][]string{
+				"syncself":      {m.Self, n.Str + "," + m.Self},
+				"syncmissing":   {"nosuchinstance", n.Str + ",nosuch", "nosuch," + n.Str},
+				"syncwrongtype": {"kv", "roi", n.Str + ",kv", "gray"},
+				"syncdup":       {n.Str + "," + n.Str},
+				"syncmulti":     c20SyncMulti[m.Self],
+				"syncempty":     {"", ",", " "},
+			}[m.Class]
+			if len(v) == 0 {
+				break
+			}
+			s := v[m.Rng.Intn(len(v))]
+			sb.WriteString(jquote(s))
+			m.Note, m.OK = fmt.Sprintf("%s := %q", n.Name, s), s != n.Str
+			return
+		case "refunknown", "refopen", "refdup":
+			var s string
+			switch m.Class {
+			case "refunknown":
+				s = []string{c20NoVersion, "zz", "", "0"}[m.Rng.Intn(4)]
+			case "refopen":
+				s = m.World.b
+			case "refdup":
+				s = n.Alt
+			}
+			sb.WriteString(jquote(s))
+			m.Note, m.OK = fmt.Sprintf("%s := %q", n.Name, s), s != n.Str
 			return
 		case "cfgnonnum", "cfgzero", "cfgneg", "cfghuge":
 			v := map[string][]string{
@@ -716,6 +787,13 @@ func mutateParam(kind, class, valid string, hugeAll, isFloat bool, rng *rand.Ran
 			return pick("99999999999999999999", "18446744073709551616")
 		case "zero":
 			return "0", true
+		}
+	case "uenum":
+		switch class {
+		case "unknownval":
+			return pick("NoSuchValue", "postsyn", "0", "AllSyn%00")
+		case "long":
+			return strings.Repeat("v", 3000+rng.Intn(3000)), true
 		}
 	case "ukey":
 		switch class {
